@@ -5,6 +5,7 @@ import a4_twin
 import io_words
 import size_branches
 import dead_reads
+import derived
 import json, os
 from vlib.core import VERIF
 
@@ -39,6 +40,10 @@ def run(facts, tier):
     obs += o
     rules.append({"rule": "io-words", "instances": len([x for x in o if x["status"] != "info"]), "min": 28,
                   "text": "every linear layout a writer can emit (fixed runs, raw / serde / nested parts, loops) is one of the layouts the corresponding reader consumes, for the stream and the byte forms"})
+    o = derived.obligations(facts)
+    obs += o
+    rules.append({"rule": "derived fields", "instances": len(o), "min": 18,
+                  "text": "state that is not stored in the image but derived (REQ section_size_ via nearest_even, var_opt allocation size, bloom popcount) is derived by the same function in the readers' constructors as in the mutators"})
     return {
         "level": "other",
         "rules": rules,
